@@ -258,6 +258,10 @@ def resolve_fn(ctx: Ctx, expr, scope):
       kws = {k.arg: unparse(k.value) for k in expr.keywords}
       return ('func', inner[1], kws)
     return None
+  if isinstance(expr, ast.Name) and isinstance(scope, FuncInfo):
+    d = roles.deref(scope, expr)
+    if d is not expr and not isinstance(d, ast.Name):
+      return resolve_fn(ctx, d, scope)  # a local holding the function value
   if isinstance(expr, (ast.Name, ast.Attribute)):
     q = p.resolve(expr, scope)
     if q in p.funcs:
@@ -405,8 +409,10 @@ def run(ctx: Ctx, rs: RuleSet, tier: str):
   rf, _ = fn_return(bf)
   rp, _ = fn_return(bp)
   ok = (isinstance(rf, ast.Call) and isinstance(rp, ast.Call) and
-        p.resolve(rf.func, bf) == 'fiddle._src.config._buildable_flatten' and
-        p.resolve(rp.func, bp) == 'fiddle._src.config._buildable_path_elements'
+        p.resolve(rf.func, bf) == ctx.func(
+            'fiddle._src.config._buildable_flatten').qualname and
+        p.resolve(rp.func, bp) == ctx.func(
+            'fiddle._src.config._buildable_path_elements').qualname
         and [unparse(k.value) for k in rf.keywords] ==
         [unparse(k.value) for k in rp.keywords] and
         [k.arg for k in rf.keywords] == [k.arg for k in rp.keywords])
